@@ -9,16 +9,16 @@
     T17.1  full   numeral ↔ value bijection, canonical shape, parse ∘ format, grammar
     T17.2  full   digit-batch decoder, limb-aligned decoder (2, 4, 16) and the three public parse
                   entry points, every radix 2..36
-    T17.3  power-of-two radix encoder (shifting loop): full.  Division encoder (limb-division loop,
-           32-limb large-divisor loop, `radix_large_divisor` table): full for the radices without a
-           normalising shift (3, 9, 10, 19, 23, 29, 30) and, for every radix, full for the encoder with
-           the repaired test `limbs[limb_count-1] < div_limb`; for the code as written the remaining
-           radices carry `H_nowrap` (`_partial`) — its negation is the proved witness of finding
-           C17-encode-wrapped-shift.
+    T17.3  power-of-two radix encoder (shifting loop) and division encoder (limb-division loop,
+           32-limb large-divisor loop, `radix_large_divisor` table): full, every radix 2..36.
+    History: the wrapping test of `encode_limbs` and the zero-limb result of the boxed parse (both repaired
+           in /repo, commits 4206d22 and a47b355) are kept as proved negative statements about the OLD
+           code in CB/Lemmas/C17Old.lean.
     T17.4  round trip at limb level: parse (format x) = x for Uint / BoxedUint / with precision.
   Value-level calls: `div2by1`, `div_rem_vartime_in_place` (exactness: C02), `bits` (C05).
 -/
 import CB.Lemmas.C17Round
+import CB.Lemmas.C17Old
 namespace CB.P17
 open CB CB.Radix
 
@@ -156,9 +156,9 @@ theorem uint_from_str_radix_exact {n radix : Nat} (h2 : 2 ≤ radix) (h36 : radi
   exact decode_str_exact h2 h36 s _
 
 /-- `BoxedUint::from_str_radix_vartime` (every radix 2..36): the value, `Empty`/`InvalidDigit` exactly
-for non-numerals, never a size error -/
+for non-numerals, never a size error; the result always has at least one limb -/
 theorem boxed_from_str_radix_exact {radix : Nat} (h2 : 2 ≤ radix) (h36 : radix ≤ 36) (s : List Nat) :
-    (∀ v, specParse radix s = .ok v → ∃ l, boxedFromStr radix s = .ok l ∧ val l = v ∧ WF l) ∧
+    (∀ v, specParse radix s = .ok v → ∃ l, boxedFromStr radix s = .ok l ∧ val l = v ∧ WF l ∧ l ≠ []) ∧
     (specParse radix s = .error .empty → boxedFromStr radix s = .error .empty) ∧
     (specParse radix s = .error .invalidDigit → boxedFromStr radix s = .error .invalidDigit) := by
   apply boxedFromStr_of_correct
@@ -213,11 +213,8 @@ theorem invalid_digit_reported_as_input_size_witness :
     specParse 10 (List.replicate 40 57 ++ [63]) = .error .invalidDigit ∧
     uintFromStr 1 10 (List.replicate 40 57 ++ [63]) = .error .inputSize := ⟨rfl, rfl⟩
 
-/- FULL STATEMENT (false of the code as written): `BoxedUint::from_str_radix_vartime` returns a
-   usable value (≥ 1 limb) equal to the numeral's value. Proved: the VALUE is right
-   (`boxed_from_str_radix_exact`); for a zero numeral the result has no limbs at all
-   (finding, DESIGN §7 row 5): -/
-theorem boxed_parse_zero_has_no_limbs : boxedFromStr 10 [48] = .ok [] := rfl
+/-- a zero numeral parses to ONE zero limb (`From<Vec<Limb>>` padding) -/
+theorem boxed_parse_zero_has_one_limb : boxedFromStr 10 [48] = .ok [0] := rfl
 
 /-! ## T17.3 — encoding -/
 
@@ -243,80 +240,44 @@ theorem encode_pow2_exact {radix : Nat} (h2 : 2 ≤ radix) (h36 : radix ≤ 36) 
   simp only
   rw [encodeByShifting_pow2 h2 h36 hp hw, skipZeros_padded h2 hs.1 hs.2]
 
-/-- T17.3, division path, FULL for the radices whose limb divisor `radix^ilog(radix)` needs no
-normalising shift (3, 9, 10, 19, 23, 29, 30 — decimal included): `RadixDivisionParams::encode_limbs`
-(limb-division loop; for more than 32 limbs the large-divisor loop with the recursive 32-limb
+/-- T17.3, division path, FULL: `RadixDivisionParams::encode_limbs` (normalising shift, limb-division
+loop with the `hi` limb; for more than 32 limbs the large-divisor loop with the recursive 32-limb
 encoding of each remainder; table `ALL` / `radix_large_divisor` evaluated in the kernel) followed by
-the leading-zero strip returns the canonical numeral, for every limb count and value.
-`div2by1` / `div_rem_vartime_in_place` are value-level (C02). -/
-theorem encode_div_exact_shift0 {radix : Nat} (hr : radix ∈ [3, 9, 10, 19, 23, 29, 30])
-    {limbs : List Nat} (hne : limbs ≠ []) (hw : WF limbs) :
-    encodeToString radix limbs = .ok (specFormat radix (val limbs)) := by
-  obtain ⟨p, hpar, h0⟩ := forRadix_shift0 hr
-  have hb : 2 ≤ radix ∧ radix ≤ 36 ∧ isPow2 radix = false := by
-    have : ∀ r ∈ [3, 9, 10, 19, 23, 29, 30], 2 ≤ r ∧ r ≤ 36 ∧ isPow2 r = false := by decide
-    exact this radix hr
-  have hs := div_size_ok hb.1 hb.2.1 hpar hne hw
-  have hg := forRadix_good hpar
-  unfold encodeToString
-  rw [radixMin_eq, radixMax_eq, if_neg (by omega)]
-  simp only [hb.2.2, Bool.false_eq_true, if_false, hpar]
-  rw [encodeLimbs_spec_shift0 hg h0 hw, (forRadix_digitsLimb hpar).1, skipZeros_padded hb.1 hs.1 hs.2]
-
-/-- T17.3, division path with the REPAIRED test (`limbs[limb_count - 1] < div_limb`, the one-token
-repair proposed for finding C17-encode-wrapped-shift), FULL: every radix 2..36 that is not a power
-of two, every limb count and value. This is the statement the code as written was meant to satisfy;
-it becomes the theorem about `encodeToString` once the repair is in the crate. -/
-theorem encode_div_repaired_exact {radix : Nat} (h2 : 2 ≤ radix) (h36 : radix ≤ 36)
+the leading-zero strip returns the canonical numeral, for every non-power-of-two radix 3..36, every
+limb count and value. `div2by1` / `div_rem_vartime_in_place` are value-level (C02). -/
+theorem encode_div_exact {radix : Nat} (h2 : 2 ≤ radix) (h36 : radix ≤ 36)
     (hp : isPow2 radix = false) {limbs : List Nat} (hne : limbs ≠ []) (hw : WF limbs) :
-    encodeToStringR radix limbs = .ok (specFormat radix (val limbs)) := by
+    encodeToString radix limbs = .ok (specFormat radix (val limbs)) := by
   obtain ⟨p, hpar⟩ := forRadix_ok radix (by omega) h2 hp
   have hs := div_size_ok h2 h36 hpar hne hw
   have hg := forRadix_good hpar
-  unfold encodeToStringR
-  rw [radixMin_eq, radixMax_eq, if_neg (by omega)]
-  simp only [hp, Bool.false_eq_true, if_false, hpar]
-  rw [encodeLimbsR_spec hg hw, (forRadix_digitsLimb hpar).1, skipZeros_padded h2 hs.1 hs.2]
-
-/- FULL STATEMENT (FALSE of the code as written for radix 7, 17, 21, 25, 27, 31, 33, 35 — witness
-   `encode_wrapped_shift_witness`; unproved for the other radices with a normalising shift):
-     ∀ radix ∈ 2..36, ¬ isPow2 radix → ∀ limbs ≠ [], WF limbs →
-       encodeToString radix limbs = .ok (specFormat radix (val limbs))
-   Proved below: it holds whenever the wrapping test `limbs[limb_count-1] << lshift < div_limb`
-   never decides differently from `limbs[limb_count-1] < div_limb` on this input, i.e. the code as
-   written computes what the repaired code computes — hypothesis `H_nowrap`. -/
-theorem encode_div_partial {radix : Nat} (h2 : 2 ≤ radix) (h36 : radix ≤ 36) (hp : isPow2 radix = false)
-    {limbs : List Nat} (hne : limbs ≠ []) (hw : WF limbs) {p : DivParams} (hpar : forRadix radix = .ok p)
-    (H_nowrap : let size := limbs.length * (p.digitsLimb + 1)
-      encodeLimbs p limbs size = encodeLimbsR p limbs size) :
-    encodeToString radix limbs = .ok (specFormat radix (val limbs)) := by
-  have hs := div_size_ok h2 h36 hpar hne hw
-  have hg := forRadix_good hpar
   unfold encodeToString
   rw [radixMin_eq, radixMax_eq, if_neg (by omega)]
   simp only [hp, Bool.false_eq_true, if_false, hpar]
-  simp only at H_nowrap
-  rw [H_nowrap, encodeLimbsR_spec hg hw, (forRadix_digitsLimb hpar).1, skipZeros_padded h2 hs.1 hs.2]
+  rw [encodeLimbs_spec hg hw, (forRadix_digitsLimb hpar).1, skipZeros_padded h2 hs.1 hs.2]
 
-/-- non-vacuity: decimal, two limbs; `H_nowrap` holds (by evaluation) for a base-7 value -/
+/-- T17.3: `to_string_radix_vartime` returns the canonical numeral — every radix 2..36, every limb
+count ≥ 1, every value -/
+theorem encode_exact {radix : Nat} (h2 : 2 ≤ radix) (h36 : radix ≤ 36) {limbs : List Nat}
+    (hne : limbs ≠ []) (hw : WF limbs) :
+    encodeToString radix limbs = .ok (specFormat radix (val limbs)) := by
+  cases hp : isPow2 radix with
+  | true => exact encode_pow2_exact h2 h36 hp hne hw
+  | false => exact encode_div_exact h2 h36 hp hne hw
+
+/-- non-vacuity: decimal, two limbs -/
 example : encodeToString 10 [0, 1] = .ok (specFormat 10 (val [0, 1])) :=
-  encode_div_exact_shift0 (by decide) (by simp) (by intro x hx; simp at hx; rcases hx with h | h <;> subst h <;> decide)
+  encode_exact (by decide) (by decide) (by simp) (by intro x hx; simp at hx; rcases hx with h | h <;> subst h <;> decide)
 
-/-- the 14-limb value on which `to_string_radix_vartime(31)` loses its leading digit -/
-def wrapWitness : Nat := 0x13c4348132f0ae20bc4e1e1dd7a8c71526e185780bb5c91686df58d9fc90c3440be592dd5a1c54b2f9fc1085cc6f2bc343b805e056492684f7992bed4957b27c9638c0e2a67542a6b11f318f6cccfda8a457a18a37e9a11739c61ec820325f4b0f71eda9082af1b01000000000003039
+/-- regression example: the 14-limb value on which `to_string_radix_vartime(31)` lost its leading digit
+before /repo commit 4206d22 (`CB/Lemmas/C17Old.lean` keeps the proved negative statement about the
+old test `limbs[limb_count-1] << lshift < div_limb`) is now formatted canonically -/
+theorem wrap_witness_now_exact :
+    encodeToString 31 (toLimbs 14 wrapWitness) = .ok (specFormat 31 wrapWitness) ∧ wrapWitness < B ^ 14 := by
+  decide +kernel
 
-def okLen : Except Err (List Nat) → Nat
-  | .ok l => l.length
-  | .error _ => 0
-
-/-- NEGATION of the full statement for the code as written (finding C17-encode-wrapped-shift):
-the model of `encode_limbs`, with its wrapping `limbs[limb_count-1] << lshift < div_limb`, returns
-a numeral that is one digit SHORTER than the canonical numeral of the value. -/
-theorem encode_wrapped_shift_witness :
-    okLen (encodeToString 31 (toLimbs 14 wrapWitness)) + 1 = (specFormat 31 wrapWitness).length ∧
-    wrapWitness < B ^ 14 := by decide +kernel
-
-/-- NEGATION (DESIGN §7 row 5): a zero-limb value formats as the empty string, not `"0"` -/
+/-- a zero-limb list is not a `BoxedUint` any more (all constructors pad); the encoder model on it
+still gives the empty string, which is why every theorem above asks `limbs ≠ []` -/
 theorem format_zero_limbs_is_empty : encodeToString 10 [] = .ok [] ∧ specFormat 10 (val []) = [48] :=
   ⟨rfl, rfl⟩
 
@@ -332,7 +293,7 @@ theorem uint_parse_of_format {radix : Nat} (h2 : 2 ≤ radix) (h36 : radix ≤ 3
 
 /-- `BoxedUint::from_str_radix_vartime(canonical numeral of x) ` has value `x` -/
 theorem boxed_parse_of_format {radix : Nat} (h2 : 2 ≤ radix) (h36 : radix ≤ 36) (x : Nat) :
-    ∃ l, boxedFromStr radix (specFormat radix x) = .ok l ∧ val l = x ∧ WF l :=
+    ∃ l, boxedFromStr radix (specFormat radix x) = .ok l ∧ val l = x ∧ WF l ∧ l ≠ [] :=
   (boxed_from_str_radix_exact h2 h36 _).1 x (parse_format h2 h36 x)
 
 /-- with precision: the numeral of any `x < 2^p` parses to `x` in `max 1 ⌈p/64⌉` limbs -/
@@ -340,20 +301,19 @@ theorem boxed_prec_parse_of_format {radix p : Nat} (h2 : 2 ≤ radix) (h36 : rad
     (hx : x < 2 ^ p) : boxedFromStrPrec radix p (specFormat radix x) = .ok (toLimbs (precLimbs p) x) :=
   (boxed_from_str_radix_with_precision_exact h2 h36 _).1 x (parse_format h2 h36 x) hx
 
-/-- `parse (to_string x) = x` through the crate's own encoder AND decoder models, power-of-two radix -/
-theorem uint_roundtrip_pow2 {radix : Nat} (h2 : 2 ≤ radix) (h36 : radix ≤ 36) (hp : isPow2 radix = true)
+/-- `parse (to_string x) = x` through the crate's own encoder AND decoder models, every radix 2..36 -/
+theorem uint_roundtrip {radix : Nat} (h2 : 2 ≤ radix) (h36 : radix ≤ 36)
     {limbs : List Nat} (hne : limbs ≠ []) (hw : WF limbs) :
     ∃ s, encodeToString radix limbs = .ok s ∧ uintFromStr limbs.length radix s = .ok limbs :=
-  ⟨_, encode_pow2_exact h2 h36 hp hne hw, uint_parse_of_format h2 h36 hw⟩
+  ⟨_, encode_exact h2 h36 hne hw, uint_parse_of_format h2 h36 hw⟩
 
-/-- … and for the division radices without a normalising shift (decimal included) -/
-theorem uint_roundtrip_shift0 {radix : Nat} (hr : radix ∈ [3, 9, 10, 19, 23, 29, 30])
-    {limbs : List Nat} (hne : limbs ≠ []) (hw : WF limbs) :
-    ∃ s, encodeToString radix limbs = .ok s ∧ uintFromStr limbs.length radix s = .ok limbs := by
-  have hb : 2 ≤ radix ∧ radix ≤ 36 := by
-    have : ∀ r ∈ [3, 9, 10, 19, 23, 29, 30], 2 ≤ r ∧ r ≤ 36 := by decide
-    exact this radix hr
-  exact ⟨_, encode_div_exact_shift0 hr hne hw, uint_parse_of_format hb.1 hb.2 hw⟩
+/-- boxed round trip the other way (op `c17.b.roundtrip`): parsing any numeral and formatting the result
+gives the canonical numeral of its value -/
+theorem boxed_roundtrip {radix : Nat} (h2 : 2 ≤ radix) (h36 : radix ≤ 36) {s : List Nat} {v : Nat}
+    (hs : specParse radix s = .ok v) :
+    ∃ l, boxedFromStr radix s = .ok l ∧ encodeToString radix l = .ok (specFormat radix v) := by
+  obtain ⟨l, hl, hv, hw, hne⟩ := (boxed_from_str_radix_exact h2 h36 s).1 v hs
+  exact ⟨l, hl, by rw [← hv]; exact encode_exact h2 h36 hne hw⟩
 
 /-- non-vacuity: `2^64` as a two-limb value in base 16 and base 10 -/
 example : WF [0, 1] ∧ uintFromStr [0, 1].length 16 (specFormat 16 (val [0, 1])) = .ok [0, 1] ∧
